@@ -8,7 +8,9 @@ ID = "C11"
 THEOREMS = ["C11_rpc_stream", "C11_http_stream", "C11_http_stream_segmentation", "C11_refuted_short_first_segment",
             "C11http.C11_http_parse_app", "C11http.C11_http_segments", "C11http.C11_http_per_segment", "Env.the_env_ok"]
 MONITORS = []
-RULE = ("request streams (HTTP requests of all shapes, ONC-RPC/TCP calls with credentials, with trailing bytes) are sent on a "
+RULE = ("request streams (HTTP requests of all shapes, ONC-RPC/TCP calls with credentials and verifiers, with trailing bytes, "
+        "and malformed streams that are never answered as a whole: CR / LF inside the target, bad version, header without "
+        "colon, unterminated, reply-typed RPC) are sent on a "
         "fresh validated flow under every 1-cut and 2-cut segmentation (exhaustive for streams up to 80 bytes, cuts on a "
         "grid beyond) and sampled k-cut ones; the reference is computed from the stream alone: the completion offset is the "
         "shortest prefix that, sent as ONE segment, is answered (measured on the implementation and on the model); every "
@@ -33,6 +35,14 @@ def streams(rng, tier):
         ("rpc-getport", gens.rpc_call(xid=0x81020304, vers=2, proc=3, tcp=True), 28),
         ("rpc-dump-cred", gens.rpc_call(xid=0x81020304, vers=4, proc=4, cred=b"abcdefgh", tcp=True) + b"tail", 28),
         ("rpc-badvers", gens.rpc_call(xid=0x81020304, vers=104316, proc=0, tcp=True), 28),
+        ("rpc-cred-verf", gens.rpc_call(xid=0x81020304, vers=3, proc=3, cred=b"0123456789a", verf=b"vwxyz", tcp=True), 28),
+        # streams that are NOT answered as a whole must not be answered under any segmentation either
+        ("http-bad-cr-in-target", b"GET /a\rb HTTP/1.1\r\nHost: x\r\n\r\n", 5),
+        ("http-bad-lf-in-target", b"GET /ab\n/c HTTP/1.0\r\n\r\n", 5),
+        ("http-bad-version", b"GET / HTTP/1.\r\nA: b\r\n\r\n", 5),
+        ("http-bad-header", b"PUT /x HTTP/1.1\r\nNoColonHere\r\n\r\n", 5),
+        ("http-unterminated", b"HEAD / HTTP/1.1\r\nA: b\r\nC: d\r\n", 6),
+        ("rpc-reply-typed", gens.rpc_call(xid=0x81020304, vers=2, proc=3, tcp=True, mtype=1), 28),
     ]
     if tier == "thorough":
         out.append(("http-long", gens.http_req(headers=[(b"H%d" % i, b"v" * i) for i in range(8)]), 5))
